@@ -119,3 +119,19 @@ impl Display for SignatureError {
 //@ end
 }
 }
+//@ item error.rs struct KeyTooLongError
+//@ end
+pub mod ktl_display_m {
+    use super::*;
+    use std::fmt::Display;
+impl Display for KeyTooLongError {
+//@ fn error.rs impl Display for KeyTooLongError :: fmt
+//@ params f
+//@ props C08 C17
+//@ consumers C17
+//@ ret r
+//@ spec
+        ensures exists|s: Seq<char>| #[trigger] fmt_wrote(fmt_out(*old(f)), fmt_out(*final(f)), s, r.is_ok()), //# C17 name=KeyTooLongError_writes_one_text_through_write_str
+//@ end
+}
+}
